@@ -111,9 +111,13 @@ class Program:
             with open(asm_file, encoding="utf-8") as f:
                 input_program = f.read()
                 try:
-                    self.assemble_string_with_emitter(input_program, asm_file, emitter)
+                    error = self.assemble_string_with_emitter(input_program, asm_file, emitter)
                 except NodeError as e:
                     logger.error(str(e))
+                    return -1
+                if error is not None:
+                    logger.error(error)
+                    return -1
 
         except RuntimeError as e:
             self.logger.error(e)
